@@ -96,23 +96,46 @@ def getAction (j : Json) : Except String (Int × Int) := do
 def legalInt (c : Conf) (s : State) (e i : Int) : Bool :=
   if e < 0 ∨ i < 0 then false else decide (legal c.cfg c.rnd s e.toNat i.toNat)
 
-/-- {"cfg", "state", "action": [ems_id, item_id], "draw"?: {"ems", "ems_mask"}} → {"state", "ts", "valid"}.
-    L1 step.  When the step packs the item, the draw (the successor EMS buffer) is required and must be in
-    the relation `EmsRel`; otherwise the op throws.  `valid` = L2 legality. -/
+/-- the active EMSs of a buffer, in slot order -/
+def activeEms (d : EmsDraw) : List Space := ((d.ems.zip d.mask).filter (·.2)).map (·.1)
+
+/-- two buffers hold the same active EMSs (as multisets: slots behind `ems_mask = False` and the slot order are
+    ignored, DESIGN 4.1) -/
+def sameActive (a b : EmsDraw) : Bool :=
+  a.ems.length == b.ems.length && a.mask.length == b.mask.length && (activeEms a).isPerm (activeEms b)
+
+/-- slot-by-slot equality of two buffers: same masks, same EMS in every active slot -/
+def sameSlots (a b : EmsDraw) : Bool :=
+  a.mask == b.mask && a.ems.length == b.ems.length &&
+  (List.range a.ems.length).all fun k => !a.mask.getD k false || a.ems.getD k default == b.ems.getD k default
+
+/-- {"cfg", "state", "action": [ems_id, item_id], "draw"?: {"ems", "ems_mask"}} → {"state", "ts", "valid", "ems_slots_equal"}.
+    L1 step `step₁`: when the step packs the item, the successor EMS buffer is computed by `updateEms` (the
+    transliteration of `_update_ems`).  When the implementation's successor buffer is supplied as `draw`, it must
+    (i) be in the relation `EmsRel` and (ii) hold the same set of active EMSs as `updateEms`; otherwise the op
+    throws.  `ems_slots_equal` (null without a draw) says whether the two buffers also agree slot by slot.
+    `valid` = L2 legality. -/
 def opStep : Op := fun j => do
   let c ← getConf j
   let s ← getState (← field j "state")
   let (e, i) ← getAction j
-  let d ← if stepValid s e i then
-      match ← fOpt j "draw" getDraw with
-      | some d =>
-        if !decide (validDraw s e i d) then
-          throw "EMS update outside the relation: a new active EMS is neither an old active EMS clear of the new item nor hyperplane(item, axis, dir) ∩ old active EMS"
-        pure d
-      | none => throw "the model packs an item here but no successor EMS buffer (draw) was supplied"
-    else pure { ems := [], mask := [] }
-  let (s', ts) := step c.cfg c.rnd s e i d
-  pure (jObj [("state", jState s'), ("ts", jTimeStep (jObs c.cfg.normalize) ts), ("valid", jBool (legalInt c s e i))])
+  let valid := stepValid s e i
+  -- the successor EMS buffer computed by the transliterated `_update_ems` (only needed when the step packs an item)
+  let dm : EmsDraw := if valid then updateEms s e i else { ems := [], mask := [] }
+  let mut slots : Json := .null
+  if valid then
+    match ← fOpt j "draw" getDraw with
+    | some d =>
+      if !decide (validDraw s e i d) then
+        throw "EMS update outside the relation: a new active EMS is neither an old active EMS clear of the new item nor hyperplane(item, axis, dir) ∩ old active EMS"
+      if !sameActive dm d then
+        throw "the set of active EMSs after _update_ems differs from the one computed by the L1 transliteration updateEms"
+      slots := jBool (sameSlots dm d)
+    | none => pure ()
+  -- this is `step₁ c.cfg c.rnd s e i` = `step … (updateEms s e i)`: `step` ignores the draw when the action is invalid
+  let (s', ts) := step c.cfg c.rnd s e i dm
+  pure (jObj [("state", jState s'), ("ts", jTimeStep (jObs c.cfg.normalize) ts), ("valid", jBool (legalInt c s e i)),
+              ("ems_slots_equal", slots)])
 
 /-- {"cfg", "state"} → mask (L1, flat), legal (L2, flat), obs (L2 observe), feasible, items_feasible, fresh,
     solution (feasible and nothing more can be added), objective (volume utilisation) -/
@@ -153,12 +176,13 @@ def opJudge : Op := fun j => do
       | _ => false
     pure (jObj [("illegal_ok", jBool (decide (problemPart s' = problemPart s) && fresh' && ts.stepType == .last &&
                                        rOk && ts.discount == [0])),
-                ("ems_ok", .null)])
+                ("ems_ok", .null), ("ems_update_ok", .null)])
   else
     let d : EmsDraw := { ems := s'.ems, mask := s'.emsMask }
     let expect := packItem s (Jx.getWC s.sortedIdx 0 e) i d
     pure (jObj [("illegal_ok", .null),
-                ("ems_ok", jBool (decide (validDraw s e i d) && decide (problemPart s' = problemPart expect) && fresh'))])
+                ("ems_ok", jBool (decide (validDraw s e i d) && decide (problemPart s' = problemPart expect) && fresh')),
+                ("ems_update_ok", jBool (sameActive (updateEms s e i) d))])
 
 /-- {"cfg", "state" (a reset state, optionally with "solution": the state returned by `generate_solution`
     for the same key)} → certificates of C10 -/
